@@ -22,6 +22,7 @@ var c18Queries = []struct {
 	{"log", `{container=~"c.*"}`, true},
 	{"log-pipeline", `{container=~"c.*"} | logfmt | v != "3"`, true},
 	{"log-collide", `{a_b=~".+"}`, true},
+	{"log-grouped", `{container=~"c.*"} | drop msg`, true},
 	{"range", `count_over_time({container=~"c.*"}[3s])`, false},
 	{"range-unwrap", `sum_over_time({container=~"c.*"} | logfmt | unwrap v [4s])`, false},
 	{"grouped", `sum by (container) (count_over_time({container=~"c.*"}[3s]))`, false},
@@ -38,7 +39,7 @@ func evalRaw(fd *FakeDocker, query string, p EvalP) (lokiapi.QueryResponseData, 
 }
 
 func runC18(r *vk.Run) {
-	r.SetRule("inventories of 1..5 containers (distinct timestamps; one container carries Docker label keys a.b / a-b / a/b that sanitise to the same name with different values) x 12 queries (log, pipeline, range, unwrap, grouped, top-k, arithmetic/literal/set binary) " +
+	r.SetRule("inventories of 1..5 containers (distinct timestamps; one container carries Docker label keys a.b / a-b / a/b that sanitise to the same name with different values) x 13 queries (log, pipeline, range, unwrap, grouped, top-k, arithmetic/literal/set binary) " +
 		"x ALL completion orders of the concurrent per-container requests (gated fake client) x repetitions (map-iteration orders): the canonicalised Eval result and, for log queries, the rendered bytes (colour off) must be identical over all runs of one (inventory, query); " +
 		"plus ungated 64-container stress; everything under the Go race detector, any report is a violation. non-trivial = distinct (inventory, query, order) runs with >=2 containers and a non-empty result.")
 	r.Assume("canonical form sorts streams/series by label set and entries by (timestamp, line); rendered output compared only with colour off and distinct timestamps, as the statement says")
